@@ -29,15 +29,22 @@ def run(names, repo="/repo"):
     if key not in _CACHE:
         cache = os.environ.get("JBK_CACHE", os.path.join(VERIF, ".cache"))
         os.makedirs(cache, exist_ok=True)
-        with open(os.path.join(cache, "witness.lock"), "w") as lk:
+        # parallel self-test workers (VCHECK_SLOT) use a private copy of the witness crate and a private target directory
+        slot = os.environ.get("VCHECK_SLOT", "")
+        wdir = W
+        if slot:
+            wdir = os.path.join(cache, "witness" + slot)
+            os.makedirs(os.path.join(wdir, "src"), exist_ok=True)
+            shutil.copy(os.path.join(W, "src", "lib.rs"), os.path.join(wdir, "src", "lib.rs"))
+        with open(os.path.join(cache, "witness%s.lock" % slot), "w") as lk:
             fcntl.flock(lk, fcntl.LOCK_EX)
-            with open(os.path.join(W, "Cargo.toml"), "w") as f:
+            with open(os.path.join(wdir, "Cargo.toml"), "w") as f:
                 f.write('[package]\nname = "jbkwitness"\nversion = "0.1.0"\nedition = "2021"\n\n[workspace]\n\n[lib]\npath = "src/lib.rs"\n\n[dependencies]\n'
                         'jubako = { path = "%s", default-features = false, features = ["zstd"] }\n' % repo)
-            shutil.copy(os.path.join(repo, "Cargo.lock"), os.path.join(W, "Cargo.lock"))
-            tdir = os.path.join(cache, "target", "witness")
+            shutil.copy(os.path.join(repo, "Cargo.lock"), os.path.join(wdir, "Cargo.lock"))
+            tdir = os.path.join(cache, "target", "witness" + slot)
             env = dict(os.environ, CARGO_NET_OFFLINE="true", CARGO_TARGET_DIR=tdir, CARGO_INCREMENTAL="0")
-            r = subprocess.run(["cargo", "+nightly", "test", "--doc", "--offline", "--", "--test-threads", "8"], cwd=W, env=env,
+            r = subprocess.run(["cargo", "+nightly", "test", "--doc", "--offline", "--", "--test-threads", "8"], cwd=wdir, env=env,
                                stdout=subprocess.PIPE, stderr=subprocess.STDOUT, text=True)
             _CACHE[key] = r.stdout
             if os.path.realpath(repo) != "/repo":
